@@ -51,7 +51,7 @@ if ok:
     for pid in checks:
         env = dict(os.environ, VF_REPO=wt, VF_EVIDENCE_DIR="/dev/shm/seed-evidence", VF_REPLAY_DIR="/dev/shm/seed-replays/" + sid)
         t0 = time.time()
-        rc, out = sh(["python3", "/verif/verif.py", "check", pid, "--tier", os.environ.get("SEED_TIER", "quick")], cwd="/verif", env=env)
+        rc, out = sh(["python3", os.path.join(os.environ.get("VERIF_SNAP", "/verif"), "verif.py"), "check", pid, "--tier", os.environ.get("SEED_TIER", "quick")], cwd=os.environ.get("VERIF_SNAP", "/verif"), env=env)
         results[pid] = {0: "missed", 1: "caught", 2: "inconclusive"}.get(rc, "rc%d" % rc)
         viol = [l for l in out.splitlines() if l.startswith("[") or "VIOLATION" in l][:3]
         note("VF_REPO=%s python3 verif.py check %s --tier quick" % (wt, pid), rc, results[pid] + " in %ds" % (time.time() - t0))
